@@ -925,6 +925,7 @@ static Node *declaration(Token **rest, Token *tok, Type *basety, VarAttr *attr) 
       if (ty->kind == TY_VLA)
         error_tok(ty->name, "variable length array with static storage duration");
       Obj *var = new_anon_gvar(ty);
+      var->is_tls = attr->is_tls;
       if (attr->align)
         var->align = attr->align;
       push_scope(get_ident(ty->name))->var = var;
